@@ -1528,3 +1528,279 @@ def alternatives(v, conds=()):
 
 def show_conds(conds):
     return ' and '.join(('' if pol else 'not ') + show(t) for t, pol in conds) or 'always'
+
+
+# ---------------------------------------------------------------------------
+# Tiny concrete-on-abstract-leaves interpreter for the ADMISSION GUARD of list-typed fields
+# (_check_field_annotation / _check_valid_array_of_types / _recursive_check_array_types).  The guard is a
+# small pure function over nested lists of types; the rule enumerates an exhaustive finite family of nested
+# list *shapes* over abstract leaf tokens and compares the guard's accept/reject decision with the
+# specification "every element has the shape and leaf type of element 0" (which is exactly what the
+# generators assume when they derive all elements from type_[0]).  Only the vocabulary below is understood;
+# anything else raises AnalysisError.
+class Leaf:
+    __slots__ = ('tag', 'kind')
+
+    def __init__(self, tag, kind):      # kind: 'bits' | 'struct' | 'nontype'
+        self.tag, self.kind = tag, kind
+
+    def __repr__(self):
+        return self.tag
+
+
+class TinyExc(Exception):
+    def __init__(self, cls):
+        self.cls = cls
+
+
+class _Ret(Exception):
+    def __init__(self, v):
+        self.v = v
+
+
+class Opaque:
+    """an object the guard only passes around / formats (the class being processed, messages)"""
+    def __repr__(self):
+        return '<opaque>'
+
+
+class TinyInterp:
+    def __init__(self, module, budget=4000):
+        self.module = module
+        self.budget = budget
+        self.steps = 0
+
+    def call(self, fname, args):
+        f = self.module.functions.get(fname)
+        if f is None:
+            raise AnalysisError(f"anchor vanished: {fname}")
+        a = f.args
+        if a.vararg or a.kwarg or a.kwonlyargs or a.defaults or len(a.args) != len(args):
+            raise AnalysisError(f"{fname}: signature outside the interpreted subset")
+        env = {p.arg: v for p, v in zip(a.args, args)}
+        try:
+            self.block(f.body, env)
+        except _Ret as r:
+            return r.v
+        return None
+
+    def tick(self, node):
+        self.steps += 1
+        if self.steps > self.budget:
+            raise AnalysisError(f"admission guard does not terminate on a small spec (near {norm(node)[:50]})")
+
+    def block(self, stmts, env):
+        for st in stmts:
+            self.stmt(st, env)
+
+    def stmt(self, st, env):
+        self.tick(st)
+        if isinstance(st, ast.Expr):
+            if not isinstance(st.value, ast.Constant):
+                self.ev(st.value, env)
+        elif isinstance(st, ast.Pass):
+            pass
+        elif isinstance(st, ast.Assign):
+            v = self.ev(st.value, env)
+            for t in st.targets:
+                self.bind(t, v, env)
+        elif isinstance(st, ast.Return):
+            raise _Ret(None if st.value is None else self.ev(st.value, env))
+        elif isinstance(st, ast.Assert):
+            if not self.truth(self.ev(st.test, env)):
+                raise TinyExc('AssertionError')
+        elif isinstance(st, ast.If):
+            self.block(st.body if self.truth(self.ev(st.test, env)) else st.orelse, env)
+        elif isinstance(st, ast.For):
+            it = self.ev(st.iter, env)
+            if not isinstance(it, (list, tuple, range)):
+                raise TinyExc('TypeError')
+            broke = False
+            for x in it:
+                self.bind(st.target, x, env)
+                try:
+                    self.block(st.body, env)
+                except _Brk:
+                    broke = True
+                    break
+                except _Cont:
+                    continue
+            if not broke:
+                self.block(st.orelse, env)
+        elif isinstance(st, ast.Break):
+            raise _Brk()
+        elif isinstance(st, ast.Continue):
+            raise _Cont()
+        elif isinstance(st, ast.Raise):
+            e = st.exc
+            name = norm(e.func) if isinstance(e, ast.Call) else (norm(e) if e is not None else 'reraise')
+            raise TinyExc(name)
+        elif isinstance(st, ast.Try):
+            try:
+                self.block(st.body, env)
+            except TinyExc as ex:
+                for h in st.handlers:
+                    names = [] if h.type is None else ([norm(x) for x in h.type.elts] if isinstance(h.type, ast.Tuple)
+                                                       else [norm(h.type)])
+                    if h.type is None or 'Exception' in names or 'BaseException' in names or ex.cls in names:
+                        if h.name:
+                            env[h.name] = Opaque()
+                        self.block(h.body, env)
+                        break
+                else:
+                    self.block(st.finalbody, env)
+                    raise
+            else:
+                self.block(st.orelse, env)
+            self.block(st.finalbody, env)
+        else:
+            raise AnalysisError(f"admission guard: statement outside the interpreted subset: {norm(st)[:60]}")
+
+    def bind(self, t, v, env):
+        if isinstance(t, ast.Name):
+            env[t.id] = v
+        elif isinstance(t, (ast.Tuple, ast.List)) and isinstance(v, (list, tuple)) and len(v) == len(t.elts):
+            for e, x in zip(t.elts, v):
+                self.bind(e, x, env)
+        else:
+            raise AnalysisError(f"admission guard: assignment outside the interpreted subset: {norm(t)}")
+
+    @staticmethod
+    def truth(v):
+        if isinstance(v, (Leaf, Opaque)):
+            return True
+        return bool(v)
+
+    def ev(self, e, env):
+        self.tick(e)
+        if isinstance(e, ast.Constant):
+            return e.value
+        if isinstance(e, ast.Name):
+            if e.id in env:
+                return env[e.id]
+            if e.id in ('True', 'False', 'None'):
+                return {'True': True, 'False': False, 'None': None}[e.id]
+            return ('name', e.id)          # a global: builtin / class name, resolved where it is used
+        if isinstance(e, ast.JoinedStr):
+            for p in e.values:
+                if isinstance(p, ast.FormattedValue):
+                    self.ev(p.value, env)
+            return ''
+        if isinstance(e, (ast.List, ast.Tuple)):
+            return [self.ev(x, env) for x in e.elts]
+        if isinstance(e, ast.Attribute):
+            self.ev(e.value, env)
+            return Opaque()
+        if isinstance(e, ast.UnaryOp) and isinstance(e.op, ast.Not):
+            return not self.truth(self.ev(e.operand, env))
+        if isinstance(e, ast.UnaryOp) and isinstance(e.op, ast.USub):
+            return -self.ev(e.operand, env)
+        if isinstance(e, ast.BoolOp):
+            v = None
+            for x in e.values:
+                v = self.ev(x, env)
+                if isinstance(e.op, ast.And) and not self.truth(v):
+                    return v
+                if isinstance(e.op, ast.Or) and self.truth(v):
+                    return v
+            return v
+        if isinstance(e, ast.IfExp):
+            return self.ev(e.body if self.truth(self.ev(e.test, env)) else e.orelse, env)
+        if isinstance(e, ast.BinOp) and isinstance(e.op, (ast.Add, ast.Sub)):
+            l, r = self.ev(e.left, env), self.ev(e.right, env)
+            if isinstance(l, str) or isinstance(r, str):
+                return ''
+            if isinstance(l, int) and isinstance(r, int) and not isinstance(l, bool) and not isinstance(r, bool):
+                return l + r if isinstance(e.op, ast.Add) else l - r
+            if isinstance(l, list) and isinstance(r, list) and isinstance(e.op, ast.Add):
+                return l + r
+            raise AnalysisError(f"admission guard: arithmetic outside the subset: {norm(e)}")
+        if isinstance(e, ast.Compare):
+            left = self.ev(e.left, env)
+            for op, rt in zip(e.ops, e.comparators):
+                right = self.ev(rt, env)
+                if not self.cmp(op, left, right, e):
+                    return False
+                left = right
+            return True
+        if isinstance(e, ast.Subscript):
+            base = self.ev(e.value, env)
+            if not isinstance(base, (list, tuple)):
+                raise TinyExc('TypeError')
+            if isinstance(e.slice, ast.Slice):
+                f = lambda x: None if x is None else self.ev(x, env)
+                return base[slice(f(e.slice.lower), f(e.slice.upper), f(e.slice.step))]
+            i = self.ev(e.slice, env)
+            if not isinstance(i, int):
+                raise AnalysisError(f"admission guard: index outside the subset: {norm(e)}")
+            try:
+                return base[i]
+            except IndexError:
+                raise TinyExc('IndexError')
+        if isinstance(e, ast.Call):
+            return self.ev_call(e, env)
+        raise AnalysisError(f"admission guard: expression outside the interpreted subset: {norm(e)[:60]}")
+
+    def cmp(self, op, a, b, node):
+        if isinstance(op, (ast.Is, ast.IsNot)):
+            if isinstance(a, Leaf) and isinstance(b, Leaf):
+                same = a.tag == b.tag
+            elif a is None or b is None or isinstance(a, bool) or isinstance(b, bool):
+                same = a is b
+            else:
+                same = a is b
+            return same if isinstance(op, ast.Is) else not same
+        if isinstance(op, (ast.Eq, ast.NotEq)):
+            def key(x):
+                if isinstance(x, Leaf):
+                    return ('leaf', x.tag)
+                if isinstance(x, (list, tuple)):
+                    return tuple(key(y) for y in x)
+                return x
+            return (key(a) == key(b)) if isinstance(op, ast.Eq) else (key(a) != key(b))
+        if isinstance(a, int) and isinstance(b, int):
+            import operator as _o
+            return {ast.Lt: _o.lt, ast.LtE: _o.le, ast.Gt: _o.gt, ast.GtE: _o.ge}[type(op)](a, b)
+        raise AnalysisError(f"admission guard: comparison outside the subset: {norm(node)}")
+
+    def ev_call(self, e, env):
+        if e.keywords or any(isinstance(a, ast.Starred) for a in e.args):
+            raise AnalysisError(f"admission guard: call outside the subset: {norm(e)[:60]}")
+        fn = norm(e.func)
+        args = [self.ev(a, env) for a in e.args]
+        if fn == 'isinstance' and len(args) == 2:
+            t = args[1]
+            if t == ('name', 'list'):
+                return isinstance(args[0], list)
+            if t == ('name', 'type'):
+                return isinstance(args[0], Leaf) and args[0].kind != 'nontype'
+            raise AnalysisError(f"admission guard: isinstance on {norm(e.args[1])}")
+        if fn == 'issubclass' and len(args) == 2 and args[1] == ('name', 'Bits'):
+            if not isinstance(args[0], Leaf) or args[0].kind == 'nontype':
+                raise TinyExc('TypeError')
+            return args[0].kind == 'bits'
+        if fn == 'is_bitstruct_class' and len(args) == 1:
+            return isinstance(args[0], Leaf) and args[0].kind == 'struct'
+        if fn == 'len' and len(args) == 1:
+            if not isinstance(args[0], (list, tuple)):
+                raise TinyExc('TypeError')
+            return len(args[0])
+        if fn == 'hasattr':
+            return False
+        if fn == 'range' and all(isinstance(a, int) for a in args):
+            return range(*args)
+        if fn in ('print', 'str', 'repr'):
+            return ''
+        if fn in ('type',) and len(args) == 1:
+            return Opaque()
+        if fn in self.module.functions:
+            return self.call(fn, args)
+        raise AnalysisError(f"admission guard: call outside the interpreted subset: {norm(e)[:60]}")
+
+
+class _Brk(Exception):
+    pass
+
+
+class _Cont(Exception):
+    pass
